@@ -18,7 +18,7 @@ def _b(x):
 
 def generate(repo):
     items = {}
-    tail_repair = first_wins = False
+    tail_repair = first_wins = scan_live = False
     complete_first = True
     try:
         wal = strip_comments(read(repo, "tensor_chain/src/tx_wal.rs"))
@@ -40,6 +40,16 @@ def generate(repo):
     except Exception as ex:
         items["restore_tx vote rule"] = "miss:%s" % ex
     try:
+        _, body = find_fn(wal, "scan_entries", after=r"impl\s+TxRecoveryState\b")
+        m = re.search(r"TxWalEntry::PrepareVote\s*\{[^}]*\}\s*=>\s*\{(.*?)\n\s*\},\s*\n\s*TxWalEntry::PhaseChange", body, re.S)
+        arm = m.group(1) if m else ""
+        scan_live = bool(re.search(r"\*phase\s*==\s*TxPhase::Preparing", arm)) and bool(re.search(r"!\s*votes\.iter\(\)\.any\(", arm))
+        if not m:
+            raise ValueError("PrepareVote arm not found")
+        items["scan_entries vote rule"] = "translated"
+    except Exception as ex:
+        items["scan_entries vote rule"] = "miss:%s" % ex
+    try:
         for fn in ("commit", "abort"):
             _, body = find_fn(dtx, fn, after=r"impl\s+DistributedTxCoordinator\b")
             i1 = body.find("TxWalEntry::TxComplete")
@@ -53,9 +63,11 @@ def generate(repo):
         "From NV.Common Require Import Base.\n\n"
         "(* tensor_chain/src/tx_wal.rs TxWal::open_with_config *)\n"
         "Definition gen_tx_tail_repair : bool := %s.\n"
+        "(* tx_wal.rs scan_entries: a vote is recovered only if logged while Preparing and first of its shard *)\n"
+        "Definition gen_vote_scan_live : bool := %s.\n"
         "(* distributed_tx.rs recover_from_wal/restore_tx: first logged vote of a shard wins *)\n"
         "Definition gen_vote_first_wins : bool := %s.\n"
         "(* commit/abort: TxComplete is logged before any lock is released *)\n"
-        "Definition gen_complete_before_release : bool := %s.\n" % (_b(tail_repair), _b(first_wins), _b(complete_first))
+        "Definition gen_complete_before_release : bool := %s.\n" % (_b(tail_repair), _b(scan_live), _b(first_wins), _b(complete_first))
     )
     return text, items
